@@ -632,6 +632,147 @@ pub fn check_history(sum: &mut Summary) {
     if prop == "C05" {
         c05_processes(sum, &mut rng);
     }
+    if prop == "C04" {
+        c04_wide_unicode(sum, &mut rng);
+    }
+}
+
+/// what C04 asks of one rendering, checked without the Lean model: parses as a Rust file of struct items (syn's lexer
+/// applies Rust's real identifier tables), struct names unique and not String/Option/Vec, field names unique per struct,
+/// every field type String or a struct of the file
+fn c04_text_ok(txt: &str) -> Result<(), String> {
+    let f = syn::parse_file(txt).map_err(|e| format!("syn: {}", e))?;
+    let mut names: Vec<String> = Vec::new();
+    for it in &f.items {
+        match it {
+            syn::Item::Struct(s) => names.push(s.ident.to_string()),
+            _ => return Err("an item that is not a struct".into()),
+        }
+    }
+    let set: HashSet<&String> = names.iter().collect();
+    if set.len() != names.len() {
+        return Err("a struct name is defined twice".into());
+    }
+    // rustc compares identifiers after NFC normalisation; the three letter-like symbols with a singleton canonical
+    // decomposition are the only way two *distinct* PascalCase names of this generator can be NFC-equal
+    let folded: HashSet<String> = names.iter().map(|n| nfc_fold(n)).collect();
+    if folded.len() != names.len() {
+        return Err(format!("{}: two struct names are the same identifier after NFC normalisation", K6_SIG));
+    }
+    if let Some(n) = names.iter().find(|n| matches!(n.as_str(), "String" | "Option" | "Vec")) {
+        return Err(format!("struct {} shadows a type the fields use", n));
+    }
+    for it in &f.items {
+        if let syn::Item::Struct(s) = it {
+            let mut seen = HashSet::new();
+            for fld in s.fields.iter() {
+                let id = fld.ident.as_ref().map(|i| i.to_string()).unwrap_or_default();
+                if !seen.insert(id.clone()) {
+                    return Err(format!("field {} declared twice in {}", id, s.ident));
+                }
+                let ty = &fld.ty;
+                let ty = quote::quote!(#ty).to_string();
+                let base = ty.replace("Option <", "").replace("Vec <", "").replace('>', "").replace(' ', "");
+                if base != "String" && !names.contains(&base) {
+                    return Err(format!("field {} of {} has the unresolved type {}", id, s.ident, base));
+                }
+            }
+        }
+    }
+    Ok(())
+}
+
+pub const K6_SIG: &str = "nfc-equivalent-names-one-rust-identifier";
+
+/// the singleton canonical decompositions among letters: ANGSTROM SIGN, OHM SIGN, KELVIN SIGN
+pub fn nfc_fold(s: &str) -> String {
+    s.chars().map(|c| match c { '\u{212B}' => '\u{C5}', '\u{2126}' => '\u{3A9}', '\u{212A}' => 'K', c => c }).collect()
+}
+
+/// C04 beyond the alphabet the Lean model supports: names made of letters from many scripts (special case mappings,
+/// letters without case, combining vowel signs, full-width and mathematical letters, ligatures), rendered by the real
+/// library and judged by `syn` and the structural conditions above; property-level check on the implementation alone
+fn c04_wide_unicode(sum: &mut Summary, rng: &mut Rng) {
+    let letters: Vec<&str> = vec![
+        "σ", "ς", "Σ", "α", "İ", "ı", "ǅ", "ǆ", "ŉ", "ǰ", "ΐ", "ﬁ", "ß", "ẞ", "ա", "Ա", "ა", "Ა", "א", "ب", "क", "का", "कि", "한", "あ", "ア", "ｱ", "Ａ", "ａ",
+        "𝐀", "𝐚", "ǈ", "\u{3A9}", "\u{2126}", "µ", "ſ", "K", "\u{212A}", "\u{C5}", "\u{212B}", "ⅷ", "Ⅷ", "ᾳ", "ᾼ", "e\u{301}", "a", "B", "x", "1", "２", "٣", "_", "-", ".",
+    ];
+    let n = if sum.tier == "thorough" { 4000 } else { 400 };
+    let mut checked = 0u64;
+    let mut k6 = 0u64;
+    // committed witnesses first
+    let mut fixed: Vec<String> = load_corpus_values("C04").iter().filter(|v| v["kind"] == "unicode-doc").filter_map(|v| v["document"].as_str().map(|s| s.to_string())).collect();
+    for step in 0..n + fixed.len() {
+        let mut r = rng.fork();
+        let from_corpus = if step < fixed.len() { Some(std::mem::take(&mut fixed[step])) } else { None };
+        let mut pool: Vec<String> = Vec::new();
+        while pool.len() < 6 {
+            let len = r.range(1, 5);
+            let mut s = String::new();
+            for _ in 0..len {
+                let l: &str = *r.pick(&letters[..]);
+                s.push_str(l);
+            }
+            // C04's domain: first character a letter (XML name start), a letter before any digit
+            if s.chars().next().map_or(false, |c| c.is_alphabetic()) && s.chars().find(|c| c.is_alphanumeric()).map_or(false, |c| !c.is_numeric()) {
+                pool.push(s);
+            }
+        }
+        fn node(r: &mut Rng, pool: &[String], depth: usize) -> Node {
+            let nm: &String = r.pick(pool);
+            let mut nd = Node::new(nm);
+            let mut used = HashSet::new();
+            for _ in 0..r.below(3) {
+                let a = r.pick(pool).clone();
+                if used.insert(a.clone()) {
+                    nd.attrs.push((a, "v".into()));
+                }
+            }
+            if depth < 3 {
+                for _ in 0..r.below(4) {
+                    nd.items.push(Item::Elem(node(r, pool, depth + 1)));
+                }
+            }
+            if nd.items.is_empty() && r.chance(1, 2) {
+                nd.items.push(Item::Text("t".into()));
+            }
+            nd
+        }
+        let xml = match from_corpus {
+            Some(x) => x,
+            None => Doc::plain(node(&mut r, &pool, 0)).to_xml(),
+        };
+        let tree = match crate::implrun::step(xml.as_bytes(), ReaderCfg::default_cfg(), None) {
+            crate::implrun::Step::Ok(t) => t,
+            crate::implrun::Step::Panic(m) => {
+                sum.failures.push(Failure { kind: "PROP".into(), what: format!("panic while parsing: {}", m), case: json!({"kind": "unicode-doc", "document": xml}) });
+                continue;
+            }
+            _ => continue,
+        };
+        for o in [OptRec::quick(), OptRec::quick_sorted(), OptRec::sxr()] {
+            match crate::implrun::render(&tree, &o) {
+                Ok(txt) => {
+                    checked += 1;
+                    if let Err(why) = c04_text_ok(&txt) {
+                        if why.starts_with(K6_SIG) && known_listed("C04", K6_SIG) {
+                            k6 += 1;
+                        } else if sum.failures.iter().filter(|f| f.kind == "PROP").count() < 3 {
+                            sum.failures.push(Failure { kind: "PROP".into(), what: format!("names outside the model's alphabet: {}", why), case: json!({"kind": "unicode-doc", "document": xml, "rendered": txt}) });
+                        }
+                    }
+                }
+                Err(m) => sum.failures.push(Failure { kind: "PROP".into(), what: format!("panic while rendering: {}", m), case: json!({"kind": "unicode-doc", "document": xml}) }),
+            }
+        }
+    }
+    sum.extra.insert("renderings_with_names_outside_the_model_alphabet_checked_by_syn".into(), json!(checked));
+    if k6 > 0 {
+        sum.extra.insert("known_hits_K6".into(), json!(k6));
+        let mut hits: Vec<Value> = sum.extra.get("known_hits").and_then(|v| v.as_array().cloned()).unwrap_or_default();
+        hits.push(json!(K6_SIG));
+        sum.extra.insert("known_hits".into(), json!(hits));
+    }
 }
 
 /// C05 across processes: the real binary, started several times on the same file (each process draws its own hash
@@ -1126,6 +1267,15 @@ fn is_k4(sxr: bool, p: &Program, j: usize, r: &compile::DocResult) -> bool {
         && p.docs.get(j).map_or(false, |d| pi_inside_text(&d.root))
 }
 
+/// K5: quick_xml::de resolves only the predefined entities; a reference to an entity declared in the document's own
+/// DTD makes `from_str` fail
+fn is_k5(sxr: bool, p: &Program, j: usize, r: &compile::DocResult) -> bool {
+    !sxr && known_listed("C02", "quick-xml-dtd-declared-entity")
+        && !r.ok
+        && r.err.contains("unrecognized entity")
+        && p.docs.get(j).map_or(false, |d| d.to_xml().contains("<!ENTITY") && crate::dom::has_entity_markers(&d.root))
+}
+
 fn known_listed(prop: &str, sig: &str) -> bool {
     std::fs::read_to_string("/verif/known_findings.json")
         .ok()
@@ -1171,6 +1321,9 @@ pub fn eval_programs(sum: &mut Summary, programs: &[Program], sxr: bool, nbins: 
     let mut k2_hits = 0u64;
     let mut k3_hits = 0u64;
     let mut k4_hits = 0u64;
+    let mut k5_hits = 0u64;
+    let mut k6_hits = 0u64;
+    let mut skipped: HashSet<usize> = HashSet::new();
     for (i, (p, r)) in programs.iter().zip(results.iter()).enumerate() {
         let mut per_doc = Vec::new();
         for j in 0..p.docs.len() {
@@ -1185,6 +1338,10 @@ pub fn eval_programs(sum: &mut Summary, programs: &[Program], sxr: bool, nbins: 
                 ok = true;
                 k4_hits += 1;
             }
+            if !ok && is_k5(sxr, p, j, &plain) && is_k5(sxr, p, j, &deny) {
+                ok = true;
+                k5_hits += 1;
+            }
             let mut cap = plain.missing.is_empty() && deny.missing.is_empty();
             if !cap && is_k1(sxr, &plain) {
                 cap = true;
@@ -1195,6 +1352,16 @@ pub fn eval_programs(sum: &mut Summary, programs: &[Program], sxr: bool, nbins: 
                 k2_hits += 1;
             }
             per_doc.push((ok, cap));
+        }
+        // K6: rustc compares identifiers after NFC normalisation
+        let k6 = !r.compiled
+            && r.diagnostics.contains("defined multiple times")
+            && known_listed("C02", K6_SIG)
+            && p.docs.iter().any(|d| d.to_xml().chars().any(|c| matches!(c, '\u{212B}' | '\u{2126}' | '\u{212A}')));
+        if k6 {
+            k6_hits += 1;
+            skipped.insert(i);
+            continue;
         }
         lines.push(compile::d_line(&format!("c{}", i), &prop, p, r.compiled, &per_doc));
         if r.compiled {
@@ -1216,6 +1383,14 @@ pub fn eval_programs(sum: &mut Summary, programs: &[Program], sxr: bool, nbins: 
     if k4_hits > 0 {
         let e = sum.extra.entry("known_hits_K4".to_string()).or_insert(json!(0));
         *e = json!(e.as_u64().unwrap_or(0) + k4_hits);
+    }
+    if k5_hits > 0 {
+        let e = sum.extra.entry("known_hits_K5".to_string()).or_insert(json!(0));
+        *e = json!(e.as_u64().unwrap_or(0) + k5_hits);
+    }
+    if k6_hits > 0 {
+        let e = sum.extra.entry("known_hits_K6".to_string()).or_insert(json!(0));
+        *e = json!(e.as_u64().unwrap_or(0) + k6_hits);
     }
     let verdicts = match driver::run(&lines) {
         Ok(v) => v,
@@ -1251,6 +1426,9 @@ pub fn eval_programs(sum: &mut Summary, programs: &[Program], sxr: bool, nbins: 
         }
     }
     for (i, (p, r)) in programs.iter().zip(results.iter()).enumerate() {
+        if skipped.contains(&i) {
+            continue; // classified as a known finding before the model was asked
+        }
         let v = verdicts.get(&format!("c{}", i)).cloned().unwrap_or(Verdict::Bad("no verdict".into()));
         sum.evaluations += 1;
         *sum.verdicts.entry(v.kind().to_string()).or_insert(0) += 1;
@@ -1328,6 +1506,12 @@ pub fn check_compile(sum: &mut Summary, sxr: bool) {
     }
     if sum.extra.get("known_hits_K4").and_then(|v| v.as_u64()).unwrap_or(0) > 0 {
         hits.push("sxr-processing-instruction-inside-text");
+    }
+    if sum.extra.get("known_hits_K5").and_then(|v| v.as_u64()).unwrap_or(0) > 0 {
+        hits.push("quick-xml-dtd-declared-entity");
+    }
+    if sum.extra.get("known_hits_K6").and_then(|v| v.as_u64()).unwrap_or(0) > 0 {
+        hits.push(K6_SIG);
     }
     if !hits.is_empty() {
         sum.extra.insert("known_hits".into(), json!(hits));
@@ -1615,6 +1799,41 @@ pub fn replay(prop: &str, cv: &Value) -> i32 {
             }
             None => 2,
         },
+        "unicode-doc" => {
+            let xml = cv["document"].as_str().unwrap_or("");
+            match crate::implrun::step(xml.as_bytes(), ReaderCfg::default_cfg(), None) {
+                crate::implrun::Step::Ok(t) => {
+                    for o in [OptRec::quick(), OptRec::quick_sorted(), OptRec::sxr()] {
+                        match crate::implrun::render(&t, &o) {
+                            Ok(txt) => {
+                                if let Err(why) = c04_text_ok(&txt) {
+                                    if why.starts_with(K6_SIG) && known_listed("C04", K6_SIG) {
+                                        println!("KNOWN {}", why);
+                                        continue;
+                                    }
+                                    println!("PROP {}", why);
+                                    return 1;
+                                }
+                            }
+                            Err(m) => {
+                                println!("PROP panic while rendering: {}", m);
+                                return 1;
+                            }
+                        }
+                    }
+                    println!("OK");
+                    0
+                }
+                crate::implrun::Step::Panic(m) => {
+                    println!("PROP panic while parsing: {}", m);
+                    1
+                }
+                _ => {
+                    println!("OK");
+                    0
+                }
+            }
+        }
         "cli-repeat" => {
             if let Err(e) = cli::build_repo_binary() {
                 println!("BAD cannot build the binary: {}", e);
